@@ -60,6 +60,19 @@ CLAIMS = {
              "internals trusted; no taint tracking: execution sinks are allowed only with literal arguments.",
         technique="effect/frame obligations over the whole-package call graph (pyvc mode E)",
         design="3/C17"),
+    "C20": dict(
+        text="Every recursion cycle of the package call graph (recomputed each run) has a measure whose obligations "
+             "are decided on the AST: recursive calls descend one step along link_obj / inherit_var / ancestor_obj / "
+             "parent / children, or carry a growing visited path, a version guard, a shrinking string, a sub-node; every "
+             "writer of a link field is a constructor, assigns None, or sits under the links_back cycle check; tree "
+             "fields are written only by the reviewed builders. A new cycle without measure is undecided, not red. The "
+             "native cycle catalogue (lengths 1..4, all positional requests, recursion limit 400, 20 s hang timeout) is "
+             "the bounded stand-in.",
+        note="Obligations are structural (templates over the AST), not SMT; trusted: the graph lemma behind "
+             "links_back, union-acyclicity assumptions for find_in_scope and the hover family, exempted by-name "
+             "artefact cycles (listed with reasons in the evidence). Termination only; no time bound.",
+        technique="termination obligations (measures + heap-shape writer obligations) over call-graph SCCs (pyvc mode T)",
+        design="3/C20"),
 }
 
 NOT_APPLICABLE = {
